@@ -38,3 +38,5 @@ MODULES = {
     "C20": ["QuillModel.Props.C20"],
 }
 OBLIG = ["QuillModel.Obligations.BackendC"]
+OBLIG_BY_PROP = {"C16": ["QuillModel.Obligations.BackendC_C16", "QuillModel.Obligations.BackendC_Common"], "C20": ["QuillModel.Obligations.BackendC_C20", "QuillModel.Obligations.BackendC_Common"],
+                 "C17": ["QuillModel.Obligations.BackendC_C17", "QuillModel.Obligations.BackendC_Common"], "C07": ["QuillModel.Obligations.BackendC_C07", "QuillModel.Obligations.BackendC_Common"]}
